@@ -704,7 +704,52 @@ def r20_11(chk):
     chk.floor("R20.11", 1, "formatted_array")
 
 
+def r20_12(chk):
+    chk.rule("R20.12", "a pickle is written through a binary stream on every path: in Table.write no assignment gives `mode` a text-mode constant on a path that the pickle format can take (the compress branch set mode = 'wt' for every format, so write('x.pickle.gz') / write('x.pickle', compress=True) raised TypeError); a text-mode constant is either format-dependent or sits in a branch that excludes pickle")
+    m = chk.repo.module("util/table.py")
+    fn = m.func("Table.write")
+    dumps = [c for c in walk_no_nested(fn) if isinstance(c, ast.Call) and norm(c.func) == "pickle.dump"]
+    if not dumps:
+        raise AnalysisError("Table.write: pickle.dump not found")
+    n = 0
+    from .c09 import _enclosing_tests
+
+    for st in walk_no_nested(fn):
+        if not (isinstance(st, ast.Assign) and len(st.targets) == 1 and norm(st.targets[0]) == "mode"):
+            continue
+        n += 1
+        v = st.value
+        k = key(m, "Table.write", f"`{norm(st)[:50]}` keeps pickle binary")
+        if isinstance(v, ast.Constant) and isinstance(v.value, str) and "b" not in v.value:
+            tests = _enclosing_tests(fn, st)
+            excl = any("format" in t and "pickle" in t and (t.startswith("not (") or "!=" in t) for t in tests) or any("format ==" in t and "pickle" not in t and not t.startswith("not (") for t in tests)
+            chk.decide(excl, "R20.12", k, m.loc(st), "in a branch that excludes the pickle format", f"`{norm(st)}` under {tests or 'no condition'} also applies when format == 'pickle': pickle.dump then writes bytes to a text stream (TypeError), so a compressed pickle cannot be written")
+        else:
+            dep = any(isinstance(x, ast.Name) and x.id == "format" for x in ast.walk(v)) or any(isinstance(x, ast.Name) and x.id == "mode" for x in ast.walk(v))
+            chk.decide(dep or not isinstance(v, ast.Constant), "R20.12", k, m.loc(st), "format-dependent (or the caller's) mode", "mode constant")
+    chk.floor("R20.12", 2, "the default and the compress-branch assignment of mode")
+
+
+def r20_13(chk):
+    chk.rule("R20.13", "one column name is one column: every method of util/table.py that walks its `columns` parameter element by element first turns a lone name into a one-element list (an isinstance / type test on `columns` naming str before the walk) -- take_columns, sum_columns and to_categorical do; a method that does not iterates the characters of the name (get_columns('bc') on an indexed table raised KeyError 'b')")
+    m = chk.repo.module("util/table.py")
+    n = 0
+    for q, fn in m.all_functions():
+        if "columns" not in params_of(fn):
+            continue
+        iters = [x for x in walk_no_nested(fn) if isinstance(x, (ast.For, ast.comprehension)) and isinstance(x.iter, ast.Name) and x.iter.id == "columns"]
+        if not iters:
+            continue
+        first = min(getattr(i, "lineno", None) or i.iter.lineno for i in iters)
+        tests = [c for c in walk_no_nested(fn) if isinstance(c, ast.Call) and ((norm(c.func) == "isinstance" and c.args and norm(c.args[0]) == "columns" and "str" in norm(c.args[1])) or (norm(c.func) == "type" and c.args and norm(c.args[0]) == "columns")) and c.lineno <= first]
+        n += 1
+        chk.decide(bool(tests), "R20.13", key(m, q, "a lone column name is wrapped before the walk"), m.loc(iters[0].iter), f"`{norm(tests[0])[:40]}` precedes the walk" if tests else "", f"{q} walks `columns` (line {first}) without a str test: a single name given as a string is taken apart into characters -- make_table(header=['a','bc'], data=[[1,2]], index_name='a').get_columns('bc') raises KeyError: 'b'")
+    chk.floor("R20.13", 4, "take_columns, get_columns, sum_columns, to_categorical")
+
+
 def run(chk):
+    r20_13(chk)
+    r20_12(chk)
     r20_11(chk)
     r20_10(chk)
     r20_9(chk)
